@@ -658,6 +658,30 @@ def _seeded_uuid4():
     return _uuid.UUID(int=_uuid_rng.getrandbits(128), version=4)
 
 
+def set_debug_logging(on):
+    """The deployment's log level ([DEFAULT] debug): what LOG.isEnabledFor
+    answers inside the service.  No handler is attached, so nothing is
+    formatted or written."""
+    import logging
+    root = logging.getLogger()
+    if on:
+        # enabled, and swallowed: nothing is formatted or written
+        root.handlers[:] = [logging.NullHandler()]
+        for name in list(logging.root.manager.loggerDict):
+            lg = logging.root.manager.loggerDict[name]
+            if isinstance(lg, logging.Logger) and lg.handlers:
+                lg.handlers[:] = []
+        root.setLevel(logging.DEBUG)
+        logging.disable(logging.NOTSET)
+    else:
+        # (the harness otherwise runs with logging switched off altogether)
+        logging.disable(logging.CRITICAL)
+
+
+def debug_logging_for(seed):
+    return seed % 6 == 1
+
+
 def seed_process(seed):
     """Seed every PRNG the code under test can see."""
     import random
